@@ -4,7 +4,9 @@ package sm4
 
 import (
 	"bytes"
+	"crypto/cipher"
 	"fmt"
+	"github.com/klauspost/cpuid/v2"
 	"testing"
 	"unsafe"
 
@@ -351,6 +353,49 @@ func TestVerifC05(t *testing.T) {
 				hk.Unmap(big)
 			} else {
 				r.Inconclusive("c05: cannot map 4 GiB of zero pages for the long-slice cases")
+			}
+			// the ENVIRONMENT changes while ciphers are alive: the CPU feature set of the cpuid dependency (a public,
+			// mutable global) has features switched off and on again; ciphers built before, between and after
+			// must keep computing the standard permutation and its inverse
+			{
+				key := keys[2]
+				refBlk := ref.NewSM4Block(key)
+				judge := func(stage string, blk cipher.Block) {
+					in := rng.Bytes(16)
+					want := make([]byte, 16)
+					refBlk.Encrypt(want, in)
+					out, back := make([]byte, 16), make([]byte, 16)
+					p, msg, _, _ := hk.Try(func() {
+						blk.Encrypt(out, in)
+						blk.Decrypt(back, want)
+					})
+					if p || !bytes.Equal(out, want) || !bytes.Equal(back, in) {
+						r.Violation("block-wrong-after-cpu-feature-set-changed:"+pn, hk.D{"stage": stage, "key": hk.Hex(key), "block": hk.Hex(in), "encrypt": hk.Hex(out), "want": hk.Hex(want), "decrypt_of_want": hk.Hex(back), "panic": msg})
+					}
+				}
+				before, _ := NewCipher(key)
+				judge("built-before", before)
+				feats := []cpuid.FeatureID{cpuid.GFNI, cpuid.AVX512F, cpuid.VPCLMULQDQ, cpuid.AESARM}
+				had := map[cpuid.FeatureID]bool{}
+				for _, f := range feats {
+					had[f] = cpuid.CPU.Supports(f)
+				}
+				for _, f := range feats {
+					cpuid.CPU.Disable(f)
+					judge("built-before,used-while-"+f.String()+"-disabled", before)
+					mid, err := NewCipher(key)
+					if err == nil {
+						judge("built-while-"+f.String()+"-disabled", mid)
+					}
+					if had[f] {
+						cpuid.CPU.Enable(f)
+					}
+					judge("built-before,used-after-"+f.String()+"-re-enabled", before)
+					if err == nil {
+						judge("built-while-disabled,used-after-re-enabled", mid)
+					}
+				}
+				r.Eval("cpu-feature-set-toggled:" + pn)
 			}
 			// object lifetimes: AEADs derived from a Block become garbage and are finalized while the Block lives on
 			lifetimeHistories(r, rng, pn, hk.N(6, 40), false, true, false)
